@@ -50,15 +50,13 @@ partial def loop (prop : String) (h : IO.FS.Stream) (c : Cnt) (lineno : Nat) : I
           if project prop op o.model != project prop op impl then
             c := { c with mdiff := c.mdiff + 1 }
             if c.mdiff ≤ 200 then IO.println s!"D {lineno} model={o.model} :: {line}"
-          match o.spec with
-          | some msg =>
+          for msg in (o.spec.toList ++ o.specs) do
             -- a message `Cxx …` belongs to property Cxx; other properties' verdicts are only counted
             let foreign := msg.startsWith "C" && (msg.drop 3).startsWith " " && !msg.startsWith (prop ++ " ")
             if foreign then c := { c with other := c.other + 1 }
             else
               c := { c with sfail := c.sfail + 1 }
               if c.sfail ≤ 200 then IO.println s!"S {lineno} {msg} :: {line}"
-          | none => pure ()
         loop prop h c (lineno + 1)
     | [] => loop prop h c (lineno + 1)
   | _ =>
